@@ -987,13 +987,16 @@ def replay(v: core.Violation):
             msgs.append(r[1])
     elif v.check == 'stream_state':
         _, res = run_stream(c['mode'], tuple(c['seq']))
-        msgs += [m for _, m in res]
+        want = jkey({k: x for k, x in v.signature.items() if k != 'check'})
+        msgs += [m for sig, m in res if jkey(sig) == want]
     elif v.check == 'sdp_multi_client' and 'seq' in c:
         res = run_multi_seq(tuple(tuple(x) for x in c['seq']))
-        msgs += [m for _, m in res]
+        want = jkey({k: x for k, x in v.signature.items() if k != 'check'})
+        msgs += [m for sig, m in res if jkey(sig) == want]
     elif v.check == 'sdp_multi_client':
         r = run_multi(c['params'], {int(k): x for k, x in c['prefix'].items()}, None)
-        msgs += [m for _, _, m in r['viol']]
+        want = jkey({k: x for k, x in v.signature.items() if k != 'check'})
+        msgs += [m for _, sig, m in r['viol'] if jkey(sig) == want]
     elif v.check.startswith('sdp_'):
         group = c['group']
         group = tuple(group)
